@@ -322,6 +322,9 @@ def prove(label, claim, kind='post', clause=None, path=None):
     ob.kind = kind
     ob.clause = clause or label
     ob.sig = p.signature()
+    case = getattr(RUN, 'case', None)
+    if case:
+        label = '%s:%s' % (case, label)
     ob.name = '%s#%s@%s' % (RUN.function, label, ob.sig)
     ob.model = None
     ob.replay = None
